@@ -41,6 +41,12 @@ def base_patterns():
     cb2 = U.mod([], U.bprobes("bq", B2L), [U.bnd("bq", "B2", port=True)])
     top = U.mod([U.sig("s")], [U.inst("k", "CB2", [("bq", Bund("c"))])] + U.bprobes("c", B2L), [U.bnd("c", "B2")])
     out.append(("nested_bundle", U.design({"CB2": cb2, "Top": top}, bundles={"B1": U.B1, "B2": U.B2}), ["c_s", "c_sub_x", "c_sub_y"], []))
+    # P3a: implicit sources on BUNDLE-valued ports: a port-reference group without a source makes an implicit bundle instance k_bp (flattened to
+    # k_bp_x, k_bp_y); a no-connect on a bundle port likewise
+    top = U.mod([U.sig("s")], [U.inst("k", "CB", []), U.inst("j", "CB", [("bp", Pref("k", "bp"))])])
+    out.append(("portref_bundle", U.design({"CB": cb, "Top": top}, bundles={"B1": U.B1}), ["k_bp", "k_bp_x", "k_bp_y"], []))
+    top = U.mod([U.sig("s")], [U.inst("k", "CB", [("bp", Nc(1))]), U.inst("j", "CB", [("bp", Nc(2, "open"))])])
+    out.append(("noconn_bundle", U.design({"CB": cb, "Top": top}, bundles={"B1": U.B1}), ["k_bp", "k_bp_x", "open", "open_y"], []))
     # P3b: members of ONE bundle whose flattened names coincide with each other: scalar a_b beside sub-bundle a with signal b
     BA = {"sigs": [U.bsig("b", 1)], "subs": [], "roles": []}
     BC = {"sigs": [U.bsig("a_b", 1)], "subs": [{"n": "a", "of": "BA", "flipped": False}], "roles": []}
@@ -53,6 +59,13 @@ def base_patterns():
     out.append(("array", U.design({"Top": top}), [], ["arr_0", "arr_1"]))
     top = U.mod([U.sig("s"), U.sig("t")], [U.inst("pr", "L1", [("a", Anon(p=Sig("s"), n=Sig("t")))], kind="pair", k="ext")])
     out.append(("pair", U.design({"Top": top}, bundles={"Diff": U.DIFF}), [], ["pr_p", "pr_n"]))
+    # P6: an instance-bundle type of the designer's own (h.InstanceBundleType) over a bundle whose member names differ by a trailing underscore
+    # (a clock and its complement): the members' invented names can meet EACH OTHER once a designer name pushes one of them on
+    CLK = {"sigs": [U.bsig("clk", 1), U.bsig("clk_", 1)], "subs": [], "roles": []}
+    ib = U.inst("bufs", "L1", [("a", Anon(clk=Sig("s"), clk_=Sig("t")))], kind="pair", k="ext")
+    ib["ibt"], ib["members"] = "Clks", ["clk", "clk_"]
+    top = U.mod([U.sig("s"), U.sig("t")], [ib])
+    out.append(("instbundle", U.design({"Top": top}, bundles={"Clks": CLK}), [], ["bufs_clk", "bufs_clk_"]))
     return out
 
 
@@ -154,6 +167,16 @@ def run_case(args):
         # to TLC the arrays / pairs are renamed "~" + name, so that Design!Elems produces the same tagged names.
         designer = {i["n"] for i in D["mods"][D["top"]]["insts"] if i["kind"] == "inst"}
         pm = P["mods"][P["top"]]
+        if case["pattern"] == "instbundle":
+            # here two invented names differ ONLY by trailing underscores (bufs_clk / bufs_clk_), so the invented instances are told apart by what
+            # they are for instead: the member on signal s is the one for `clk`, the one on t the one for `clk_`
+            for i in pm["insts"]:
+                if i["n"] not in designer:
+                    on = [c["t"].get("n", "") for c in i["conns"] if c["p"] == "a"]
+                    to = {"s": "~bufs_clk", "t": "~bufs_clk_"}.get(on[0] if on else "", "~" + i["n"])
+                    ev["renamed"].append([i["n"], to])
+                    i["n"] = to
+            designer = {i["n"] for i in pm["insts"]}
         for i in pm["insts"]:
             if i["n"] not in designer:
                 ev["renamed"].append([i["n"], "~" + i["n"].rstrip("_")])
@@ -205,7 +228,7 @@ def run(tier, seed, replay_file=None):
             feats = ["pattern_" + case["pattern"], "kind_" + case["kind"], "order_" + case["order"]]
             meta = {k: case[k] for k in ("pattern", "target", "taken", "kind", "order")}
             o.violations.append(Violation(clause=c, case=case, features=feats, detail={"meta": meta, "exc": evs[i]["exc"], "P": evs[i]["P"]} if len(o.violations) < 20 else None))
-    o.required_cover = ["ok_kept"] + ["pattern_" + p for p in ("portref", "noconn", "named_noconn", "bundle", "nested_bundle", "self_colliding_bundle", "array", "pair")]
+    o.required_cover = ["ok_kept"] + ["pattern_" + p for p in ("portref", "noconn", "named_noconn", "bundle", "nested_bundle", "self_colliding_bundle", "array", "pair", "instbundle", "portref_bundle", "noconn_bundle")]
     rnd = random.Random(seed)
     for i in rnd.sample(range(len(cases)), 2):
         o.samples.append({k: cases[i][k] for k in ("pattern", "target", "taken", "kind", "order")} | {"verdict": verdicts[i], "renamed": evs[i]["renamed"]})
